@@ -127,9 +127,22 @@ def pubview(ns):
     return root
 
 
+_SCALAR = (int, str, float, type(None), bool)
+
+
+def eqv(a, b):
+    """typed equality of a real value and a reference value (loose only about mapping kinds inside dict values)"""
+    if type(b) in _SCALAR:
+        return type(a) is type(b) and a == b
+    return norm(a, True) == norm(b, True)
+
+
 def norm(x, loose=False, _in_dict=False):
     """Typed, order-insensitive canonical form. Namespace and MB are the same thing ('B'). With loose=True a mapping that
     sits *inside a dict value* is 'M' whether it is a dict or a branch (the statement does not say which it must be)."""
+    t = type(x)
+    if t in _SCALAR:
+        return (t.__name__, repr(x))
     if isinstance(x, Namespace):
         x = MB((unmark(k), v) for k, v in x.__dict__.items())
     if type(x) is MB:
@@ -353,29 +366,76 @@ def repro(history, last=None):
 
 
 # ------------------------------------------------------------------ classification of a key against a model state
+NAME_RANK = ["plain", "clash", "plain-below-dict", "clash-below-dict", "dictattr-below-dict", "marked-key-in-dict"]
+FAMILY_RANK = ["at-branch", "parent-missing", "parent-None", "parent-leaf", "thru-dict"]
+
+
+def _has_marked_key(d):
+    return any(isinstance(k, str) and k.startswith(MARK) for k in d)
+
+
 def classify(m, path, names_clash=CLASH):
-    """-> (route class, clash category): names the *class* of the addressed position, for canonical violation keys."""
-    node, thru, first_dict = m, False, None
-    route = None
+    """-> (family, sub, name class): names the *class* of the addressed position, for canonical violation keys.
+      family  at-branch (every proper prefix is a branch)  sub: absent | leaf | dict | branch   (what the key addresses)
+              parent-missing | parent-None | parent-leaf (a proper prefix is missing / None / another non-mapping)  sub: -
+              thru-dict (a proper prefix is a plain dict value)  sub: present | absent | mid (a later prefix is no mapping)
+      name    plain | clash (a segment is one of the method names) | for thru-dict, looking at the segments below the dict:
+              plain-below-dict | clash-below-dict | dictattr-below-dict (a name that is an attribute of dict but not of
+              Namespace) | marked-key-in-dict (a traversed dict already holds a key starting with the clash mark, i.e. the
+              state is the product of an earlier reported violation)
+    """
+    node, first_dict, marked = m, None, False
+    stop = None
     for i, seg in enumerate(path[:-1]):
         child = node.get(seg, MISSING) if isinstance(node, dict) else MISSING
         if child is MISSING:
-            route = "mid-missing"
+            stop = "missing"
         elif child is None:
-            route = "mid-None"
+            stop = "None"
         elif not isinstance(child, dict):
-            route = "mid-leaf"
-        if route:
+            stop = "leaf"
+        if stop:
             break
-        if type(child) is not MB and first_dict is None:
-            thru, first_dict = True, i
+        if type(child) is not MB:
+            if first_dict is None:
+                first_dict = i
+            marked = marked or _has_marked_key(child)
         node = child
-    if route is None:
-        leaf = node.get(path[-1], MISSING) if isinstance(node, dict) else MISSING
-        route = "absent" if leaf is MISSING else "branch" if type(leaf) is MB else "dict" if isinstance(leaf, dict) else "leaf"
-    if thru:
+    if first_dict is not None:
+        if stop:
+            sub = "mid"
+        else:
+            leaf = node.get(path[-1], MISSING) if isinstance(node, dict) else MISSING
+            sub = "absent" if leaf is MISSING else "present"
         below = path[first_dict + 1:]
-        cat = "clash-below-dict" if any(s in names_clash for s in below) else "dictattr-below-dict" if any(s in DICT_ONLY_ATTRS for s in below) else "plain-below-dict"
-        return "thru-dict:" + route, cat
-    cat = "clash" if any(s in names_clash for s in path) else "plain"
-    return ("parent-" + route[4:] if route.startswith("mid-") else "at-branch:" + route), cat
+        name = ("marked-key-in-dict" if marked else "dictattr-below-dict" if any(s in DICT_ONLY_ATTRS for s in below)
+                else "clash-below-dict" if any(s in names_clash for s in below) else "plain-below-dict")
+        return "thru-dict", sub, name
+    name = "clash" if any(s in names_clash for s in path) else "plain"
+    if stop:
+        return "parent-" + stop, "-", name
+    leaf = node.get(path[-1], MISSING)
+    sub = "absent" if leaf is MISSING else "branch" if type(leaf) is MB else "dict" if isinstance(leaf, dict) else "leaf"
+    return "at-branch", sub, name
+
+
+def classify_many(m, paths):
+    cls = [classify(m, p) for p in paths]
+    if not cls:
+        return "nokey", "-", "plain"
+    if len(cls) == 1:
+        return cls[0]
+    fam = max((c[0] for c in cls), key=FAMILY_RANK.index)
+    name = max((c[2] for c in cls), key=NAME_RANK.index)
+    return fam, "*", name
+
+
+def m_plain(m):
+    """every branch, wherever it sits, as a plain dict"""
+    if isinstance(m, dict):
+        return {k: m_plain(v) for k, v in m.items()}
+    if isinstance(m, list):
+        return [m_plain(v) for v in m]
+    if isinstance(m, tuple):
+        return tuple(m_plain(v) for v in m)
+    return m
